@@ -9,20 +9,96 @@ From V.gen Require Import GenC05.
 (** saxutils.escape (three replace passes) is the per-character substitution *)
 Theorem C05_escape_single_pass : forall s,
   sax_escape s = flat_map esc_char s /\ sax_escape_q s = flat_map esc_char_q s.
-Proof. intros s. split; [apply sax_escape_flat | apply sax_escape_q_flat]. Qed.
+Proof. exact escape_single_pass. Qed.
 Print Assumptions C05_escape_single_pass.
 
-(** element text: escaped caller text is read back as one text node holding the string
-    (after the line-end handling every XML parser applies) *)
+(** element text, plain saxutils.escape (raw TAB, LF, CR reach the parser): the slot is read
+    back as exactly one text node, whose content is [blank_drop_normalise s]: the line-end
+    handling every XML parser applies AND libxml2's blank-text removal (pptx.oxml parses with
+    remove_blank_text=True), which may drop leading blank chunks that stand before a CR *)
 Theorem C05_text_safe_norm : forall s, xml_str s = true ->
-  lex_text (sax_escape s) = OneText (norm Text s).
+  lex_text (sax_escape s) = OneText (blank_drop_normalise s).
 Proof. exact text_safe_norm. Qed.
 Print Assumptions C05_text_safe_norm.
+
+(** the same content read by a conformant parser without blank-text removal: the string after
+    line-end handling *)
+Theorem C05_text_conf_norm : forall s, xml_str s = true ->
+  lex_text_conf (sax_escape s) = OneText (norm Text s).
+Proof. exact text_conf_norm. Qed.
+Print Assumptions C05_text_conf_norm.
 
 Theorem C05_text_safe : forall s, xml_str s = true -> no_cr s = true ->
   lex_text (sax_escape s) = OneText s.
 Proof. exact text_safe. Qed.
 Print Assumptions C05_text_safe.
+
+(** what [blank_drop_normalise] does, for the reader:
+    (a) without a carriage return the string is unchanged *)
+Theorem C05_blank_drop_no_cr : forall s, no_cr s = true -> blank_drop_normalise s = s.
+Proof. exact bdn_no_cr. Qed.
+Print Assumptions C05_blank_drop_no_cr.
+Example C05_ex_blank_drop_no_cr : no_cr [c_sp; c_tab; c_lf; 88; c_sp]%N = true
+  /\ blank_drop_normalise [c_sp; c_tab; c_lf; 88; c_sp]%N = [c_sp; c_tab; c_lf; 88; c_sp]%N.
+Proof. exact bdn_no_cr_ex. Qed.
+
+(** (b) in general only a leading all-blank part [a] is lost; the rest [b] is read with the
+    line-end handling; when something is lost the part that is read starts at a CR *)
+Theorem C05_blank_drop_suffix : forall s, exists a b, s = a ++ b /\ forallb is_blank a = true
+  /\ (a = [] \/ hd_error b = Some c_cr) /\ blank_drop_normalise s = norm Text b.
+Proof. exact bdn_suffix. Qed.
+Print Assumptions C05_blank_drop_suffix.
+Example C05_ex_blank_drop_suffix : blank_wit2 = [c_cr; c_lf; c_tab]%N ++ [c_cr; c_lf; 88]%N
+  /\ forallb is_blank [c_cr; c_lf; c_tab]%N = true
+  /\ blank_drop_normalise blank_wit2 = norm Text [c_cr; c_lf; 88]%N.
+Proof. exact bdn_suffix_ex. Qed.
+
+(** ... so everything from the first non-blank character on is preserved (up to line ends),
+    and nothing is ever added *)
+Theorem C05_blank_drop_keeps_nonblank : forall pre c r, forallb is_blank pre = true -> is_blank c = false ->
+  exists k, blank_drop_normalise (pre ++ c :: r) = k ++ norm Text (c :: r).
+Proof. exact bdn_keeps_nonblank. Qed.
+Print Assumptions C05_blank_drop_keeps_nonblank.
+Example C05_ex_blank_drop_keeps : forallb is_blank [c_sp; c_cr; c_tab]%N = true /\ is_blank 88%N = false
+  /\ blank_drop_normalise ([c_sp; c_cr; c_tab]%N ++ [88; c_cr; c_sp]%N) = [c_lf; c_tab]%N ++ norm Text [88; c_cr; c_sp]%N.
+Proof. exact bdn_keeps_ex. Qed.
+
+Theorem C05_blank_drop_length : forall s, (length (blank_drop_normalise s) <= length s)%nat.
+Proof. exact bdn_length. Qed.
+Print Assumptions C05_blank_drop_length.
+
+(** (c) the loss is real: blank CR X reads LF X, CR LF TAB CR LF X reads LF X; with plain
+    saxutils.escape libxml2 does not give the string back even up to line-end handling,
+    although a conformant parser would *)
+Theorem C05_text_sax_blank_refuted : exists s, xml_str s = true
+  /\ lex_text_conf (sax_escape s) = OneText (norm Text s)
+  /\ lex_text (sax_escape s) <> OneText (norm Text s).
+Proof. exact text_sax_blank_refuted. Qed.
+Print Assumptions C05_text_sax_blank_refuted.
+Example C05_ex_blank_drop_1 :
+  lex_text (sax_escape blank_wit1) = OneText [c_lf; 88]%N /\ norm Text blank_wit1 = [c_sp; c_lf; 88]%N.
+Proof. exact blank_drop_ex1. Qed.
+Example C05_ex_blank_drop_2 :
+  lex_text (sax_escape blank_wit2) = OneText [c_lf; 88]%N /\ norm Text blank_wit2 = [c_lf; c_tab; c_lf; 88]%N.
+Proof. exact blank_drop_ex2. Qed.
+Example C05_ex_blank_drop_buffer :
+  blank_drop_normalise (c_cr :: repeat c_sp 299 ++ [c_cr; 88]%N) = [c_lf; 88]%N
+  /\ length (blank_drop_normalise (c_cr :: repeat c_sp 298 ++ [c_cr; 88]%N)) = 301%nat
+  /\ length (blank_drop_normalise (c_cr :: repeat c_sp 300 ++ [c_cr; 88]%N)) = 303%nat.
+Proof. exact blank_drop_ex_buffer. Qed.
+
+(** content without a raw carriage return and without a raw less-than sign: the heuristic
+    cannot fire, libxml2 reads what XML 1.0 prescribes ... *)
+Theorem C05_text_no_raw_cr_conformant : forall l, no_cr_lt l = true -> lex_text l = lex_text_conf l.
+Proof. exact lex_text_conf_eq. Qed.
+Print Assumptions C05_text_no_raw_cr_conformant.
+(** ... and every escaping dictionary that maps the carriage return produces such content *)
+Theorem C05_escaped_cr_no_raw : forall q t l s, no_cr_lt (sax_escape_g q t l true s) = true.
+Proof. exact escaped_cr_no_raw. Qed.
+Print Assumptions C05_escaped_cr_no_raw.
+Example C05_ex_no_raw_cr : let l := sax_escape_g false false false true [c_sp; c_cr; c_lf; 88; c_lt]%N in
+  no_cr_lt l = true /\ lex_text l = lex_text_conf l /\ lex_text l = OneText [c_sp; c_cr; c_lf; 88; c_lt]%N.
+Proof. exact conf_eq_ex. Qed.
 
 (** double-quoted attribute value: escaping that includes the quot entity gives back one
     value, the string after attribute-value normalisation (TAB, LF, CR, CR LF -> blank) *)
@@ -45,7 +121,7 @@ Print Assumptions C05_attr_safe_ws.
 (** element text with the carriage return written as a reference: every string, no guard *)
 Theorem C05_text_safe_cr : forall s q t l, xml_str s = true ->
   lex_text (sax_escape_g q t l true s) = OneText s.
-Proof. intros; apply text_safe_r; auto. Qed.
+Proof. exact text_safe_r. Qed.
 Print Assumptions C05_text_safe_cr.
 
 (** escape with any sub-dictionary of quote / TAB / LF / CR is the per-character substitution *)
@@ -69,19 +145,19 @@ Proof. exact none_refuted. Qed.
 Print Assumptions C05_none_refuted.
 
 (** the CDATA-end sequence is rejected wherever it stands in character data ... *)
-Theorem C05_cdata_end_rejected : forall a b rb cr acc,
-  fold_left (step Text) a start = Run (MNorm rb cr) acc ->
+Theorem C05_cdata_end_rejected : forall a b, in_chardata (fold_left tstep a tstart) = true ->
   lex_text (a ++ cdata_end ++ b) = BrokenText.
 Proof. exact cdata_end_rejected. Qed.
 Print Assumptions C05_cdata_end_rejected.
-Example C05_ex_cdata_end : fold_left (step Text) [97]%N start = Run (MNorm 0 false) [97]%N
-  /\ lex_text ([97]%N ++ cdata_end ++ [98]%N) = BrokenText.
-Proof. split; reflexivity. Qed.
+Example C05_ex_cdata_end : in_chardata (fold_left tstep [c_sp] tstart) = true
+  /\ in_chardata (fold_left tstep [97]%N tstart) = true
+  /\ lex_text ([c_sp] ++ cdata_end ++ [98]%N) = BrokenText /\ lex_text ([97]%N ++ cdata_end ++ [98]%N) = BrokenText.
+Proof. exact cdata_end_ex. Qed.
 
 (** ... and cannot occur in escaped text: no greater-than sign survives *)
 Theorem C05_cdata_end_absent : forall s, ~ In c_gt (sax_escape s) /\
   forall a b, sax_escape s <> a ++ cdata_end ++ b.
-Proof. intros s. split; [apply no_gt_after_escape | apply no_cdata_end_after_escape]. Qed.
+Proof. exact cdata_end_absent. Qed.
 Print Assumptions C05_cdata_end_absent.
 
 (** the decision table (the slot gives back EXACTLY the string, for every string) is sound ... *)
@@ -121,6 +197,17 @@ Theorem C05_all_sinks : forall k, In k sinks -> memN (sk_id k) known_failing = f
 Proof. exact all_sinks_safe. Qed.
 Print Assumptions C05_all_sinks.
 
+(** INSTANCE: no element-text sink of python-pptx lets a raw carriage return (or less-than
+    sign) of the value reach the template parser, so libxml2's blank-text heuristic never
+    fires there: the content is read as XML 1.0 prescribes *)
+Theorem C05_text_sinks_heuristic_off : forall k, In k sinks -> memN (sk_id k) known_failing = false ->
+  sk_ctx k = Text ->
+  forall s, (sk_esc k = NotText -> plain s = true /\ no_ws_ctl s = true) ->
+  no_cr_lt (apply_esc (sk_esc k) s) = true
+  /\ lex_text (apply_esc (sk_esc k) s) = lex_text_conf (apply_esc (sk_esc k) s).
+Proof. exact text_sinks_heuristic_off. Qed.
+Print Assumptions C05_text_sinks_heuristic_off.
+
 (** recorded findings are real *)
 Theorem C05_known_failing_refuted : forall k, In k sinks -> memN (sk_id k) known_failing = true ->
   xml_str (sink_witness k) = true /\
@@ -143,5 +230,7 @@ Proof. exact guards_inhabited. Qed.
 Example C05_ex_injection : lex_slot AttrDq inj_payload = Broken.
 Proof. exact attr_injection_broken. Qed.
 Example C05_ex_sinks : (0 < length (filter sink_good sinks))%nat
-  /\ (0 < length (filter (fun k => negb (esc_eqb (sk_esc k) NotText)) sinks))%nat.
-Proof. vm_compute. split; lia. Qed.
+  /\ (0 < length (filter (fun k => negb (esc_eqb (sk_esc k) NotText)) sinks))%nat
+  /\ (0 < length (filter (fun k => ctx_eqb (sk_ctx k) Text && negb (esc_eqb (sk_esc k) NotText)
+                                   && negb (memN (sk_id k) known_failing)) sinks))%nat.
+Proof. vm_compute. repeat split; lia. Qed.
